@@ -12,6 +12,7 @@ import (
 	"path/filepath"
 	"strings"
 	"sync"
+	"sync/atomic"
 	"time"
 )
 
@@ -98,7 +99,7 @@ func relevant(pc []*Term, goal *Term) []*Term {
 }
 
 // script builds the SMT-LIB text for an obligation.
-func (v *Verifier) script(o *Oblig, getValues []string) string {
+func (v *Verifier) script(o *Oblig, getValues []string, filtered bool) string {
 	var sb strings.Builder
 	sb.WriteString("(set-option :produce-models true)\n(set-logic ALL)\n")
 	sb.WriteString(prelude)
@@ -109,7 +110,7 @@ func (v *Verifier) script(o *Oblig, getValues []string) string {
 		sb.WriteString(dt + "\n")
 	}
 	pc := o.PC
-	if !o.MustSat {
+	if !o.MustSat && filtered {
 		pc = relevant(o.PC, o.Goal)
 	}
 	consts := map[string]string{}
@@ -166,9 +167,15 @@ func (v *Verifier) script(o *Oblig, getValues []string) string {
 	if fns["nlmul"] {
 		sb.WriteString("(assert (forall ((x Int) (y Int)) (! (= (nlmul x y) (nlmul y x)) :pattern ((nlmul x y)))))\n")
 	}
+	seenA := map[string]bool{}
 	for _, p := range pc {
+		ps := p.String()
+		if seenA[ps] {
+			continue
+		}
+		seenA[ps] = true
 		sb.WriteString("(assert ")
-		sb.WriteString(fixConstArrays(p.String()))
+		sb.WriteString(ps)
 		sb.WriteString(")\n")
 	}
 	if !o.MustSat {
@@ -186,6 +193,8 @@ func (v *Verifier) script(o *Oblig, getValues []string) string {
 // const arrays are printed as (const-array v) by Term; SMT-LIB needs the sort.
 // Term.write emits ((as const SORT) v) directly, so nothing to fix here.
 func fixConstArrays(s string) string { return s }
+
+var scriptSeq int64
 
 type solverSpec struct {
 	name string
@@ -219,6 +228,9 @@ func runSolver(ctx context.Context, sp solverSpec, file string, ms int) (string,
 	cmd.Run()
 	text := out.String()
 	first := strings.TrimSpace(strings.SplitN(text, "\n", 2)[0])
+	if strings.Contains(text, "(error ") && first != "unsat" && first != "sat" && first != "unknown" {
+		return "error", text // malformed script (get-value errors after a verdict are harmless)
+	}
 	switch first {
 	case "sat", "unsat", "unknown":
 		return first, text
@@ -236,7 +248,7 @@ func runSolver(ctx context.Context, sp solverSpec, file string, ms int) (string,
 // then all solvers in parallel for the full budget.
 func solve(script, dir, name string, timeoutMs int, want string) solveResult {
 	h := sha256.Sum256([]byte(script))
-	file := filepath.Join(dir, fmt.Sprintf("%x.smt2", h[:8]))
+	file := filepath.Join(dir, fmt.Sprintf("%x-%d-%d.smt2", h[:8], os.Getpid(), atomic.AddInt64(&scriptSeq, 1)))
 	os.WriteFile(file, []byte(script), 0o644)
 	defer os.Remove(file)
 	start := time.Now()
@@ -261,6 +273,12 @@ func solve(script, dir, name string, timeoutMs int, want string) solveResult {
 		}()
 	}
 	final := solveResult{verdict: "unknown", outputs: outputs}
+	nerr := 0
+	defer func() {
+		if nerr == len(solvers) {
+			fmt.Fprintf(os.Stderr, "SMT-ERROR %s: %s\n", name, firstLine(outputs["z3-new"]))
+		}
+	}()
 	for range solvers {
 		r := <-ch
 		outputs[r.solver] = trimOut(r.text)
@@ -270,6 +288,9 @@ func solve(script, dir, name string, timeoutMs int, want string) solveResult {
 		}
 		if r.verdict == "timeout" && final.verdict == "unknown" {
 			final.verdict = "timeout"
+		}
+		if r.verdict == "error" {
+			nerr++
 		}
 	}
 	final.ms = time.Since(start).Milliseconds()
@@ -296,13 +317,33 @@ func dischargeAll(jobs []*obJob, timeoutMs int, workers int, scratch string) {
 				if o.Verdict == "error" {
 					continue
 				}
-				script := j.v.script(o, j.values)
-				o.Script = script
-				if len(script) > 4<<20 {
-					o.Verdict = "toobig"
-					continue
+				// 1st attempt: assumptions restricted to the goal's cone of influence
+				// (dropping assumptions is sound for `unsat`); 2nd: everything.
+				var r solveResult
+				tried := false
+				if !o.MustSat && !o.Goal.isFalse() {
+					script := j.v.script(o, nil, true)
+					if len(script) <= 4<<20 {
+						o.Script = script
+						r = solve(script, scratch, o.Name, min(timeoutMs, 4000), "")
+						tried = true
+					}
 				}
-				r := solve(script, scratch, o.Name, timeoutMs, "")
+				if !tried || r.verdict != "unsat" {
+					script := j.v.script(o, j.values, false)
+					o.Script = script
+					if len(script) > 4<<20 {
+						o.Verdict = "toobig"
+						continue
+					}
+					tmo := timeoutMs
+					if o.MustSat {
+						tmo = min(timeoutMs, 3000)
+					}
+					r2 := solve(script, scratch, o.Name, tmo, "")
+					r2.ms += r.ms
+					r = r2
+				}
 				o.Verdict, o.Solver, o.Ms, o.Model, o.Outputs = r.verdict, r.solver, r.ms, r.output, r.outputs
 			}
 		}()
@@ -318,4 +359,33 @@ type obJob struct {
 	v      *Verifier
 	o      *Oblig
 	values []string
+}
+
+func firstLine(s string) string {
+	if i := strings.Index(s, "\n"); i >= 0 {
+		return s[:i]
+	}
+	return s
+}
+
+// entails asks the solver (short budget) whether the path condition implies g.
+// Only a definite `unsat` of pc && !g counts.
+func (v *Verifier) entails(s *State, g *Term) bool {
+	if g.isTrue() {
+		return true
+	}
+	if g.isFalse() || s.dead {
+		return false
+	}
+	o := &Oblig{Name: "entails", PC: s.pc, Goal: g}
+	script := v.script(o, nil, true)
+	scratch := filepath.Join(verifRoot, "scratch")
+	os.MkdirAll(scratch, 0o755)
+	h := sha256.Sum256([]byte(script))
+	file := filepath.Join(scratch, fmt.Sprintf("q%x-%d-%d.smt2", h[:6], os.Getpid(), atomic.AddInt64(&scriptSeq, 1)))
+	os.WriteFile(file, []byte(script), 0o644)
+	defer os.Remove(file)
+	verdict, _ := runSolver(context.Background(), solvers[0], file, 400)
+	v.nQueries++
+	return verdict == "unsat"
 }
